@@ -540,8 +540,16 @@ func c28DoGRPC(ctx context.Context, conn *grpc.ClientConn, r c28Req, body []byte
 // process. Outcome kind "spin": the server burnt c28SpinCPUSeconds on it without
 // answering (the request is then abandoned). "timeout": no answer within the
 // wall deadline without that much CPU burnt (inconclusive).
-func c28Watched(w *c28Worker, aliveAddr string, do func(ctx context.Context) c28Outcome) (c28Outcome, float64) {
-	ctx, cancel := context.WithTimeout(context.Background(), c28RequestDeadline)
+func c28Watched(w *c28Worker, aliveAddr string, wireBytes int, do func(ctx context.Context) c28Outcome) (c28Outcome, float64) {
+	// legitimate work grows with the body (refinery's JSON path needs seconds of
+	// CPU for a megabyte of short numbers): the spin threshold is generous per
+	// megabyte, so only small requests can be called spinning within the deadline
+	spinCPU := c28SpinCPUSeconds + 60*float64(wireBytes)/1e6
+	deadline := c28RequestDeadline
+	if wireBytes > 200_000 {
+		deadline = 4 * c28RequestDeadline
+	}
+	ctx, cancel := context.WithTimeout(context.Background(), deadline)
 	defer cancel()
 	pid := w.cmd.Process.Pid
 	cpu0 := c28CPUSeconds(pid)
@@ -563,7 +571,7 @@ func c28Watched(w *c28Worker, aliveAddr string, do func(ctx context.Context) c28
 		case now := <-tick.C:
 			cpu := c28CPUSeconds(pid)
 			samples = append(samples, sample{now, cpu})
-			if d := cpu - cpu0; d >= c28SpinCPUSeconds {
+			if d := cpu - cpu0; d >= spinCPU {
 				// answered in the meantime?
 				select {
 				case out := <-ch:
@@ -698,11 +706,11 @@ func c28RunRequest(c c28Case, fresh bool) vkit.Result {
 					return res
 				}
 			}
-			out, _ = c28Watched(w, httpAddr, func(ctx context.Context) c28Outcome { return c28DoGRPC(ctx, conn, r, body) })
+			out, _ = c28Watched(w, httpAddr, len(body), func(ctx context.Context) c28Outcome { return c28DoGRPC(ctx, conn, r, body) })
 		case "peer":
-			out, _ = c28Watched(w, httpAddr, func(ctx context.Context) c28Outcome { return c28DoHTTP(ctx, peerAddr, r, body, ct, ce) })
+			out, _ = c28Watched(w, httpAddr, len(body), func(ctx context.Context) c28Outcome { return c28DoHTTP(ctx, peerAddr, r, body, ct, ce) })
 		default:
-			out, _ = c28Watched(w, httpAddr, func(ctx context.Context) c28Outcome { return c28DoHTTP(ctx, httpAddr, r, body, ct, ce) })
+			out, _ = c28Watched(w, httpAddr, len(body), func(ctx context.Context) c28Outcome { return c28DoHTTP(ctx, httpAddr, r, body, ct, ce) })
 		}
 		res.Class("outcome=" + out.Kind + "/" + out.Status[:min(len(out.Status), 24)])
 		desc := fmt.Sprintf("request %d: %s %s base=%s pre=%v enc=%q post=%v content-type=%q content-encoding=%q key=%s dataset=%.40q event-time=%.40q samplerate=%q; %d bytes on the wire: %s; outcome %s %.200s",
@@ -899,11 +907,12 @@ func TestC28(t *testing.T) {
 	vkit.Run(t, vkit.Spec[c28Case]{
 		ID: "C28",
 		Rule: "Two modes in one check. config: files generated from refinery's own metadata (configMeta.yaml/rulesMeta.yaml: valid, near-valid and junk values, YAML mostly, some JSON/TOML); whatever config.NewConfig accepts is exercised as refinery does (all argument-free Config getters by reflection, per-destination lookups, Reload, the marshalling of /query/*rules, every sampler built by sample.SamplerFactory and run on 3 small traces). " +
-			"request: 1-5 mutated requests (truncate, flip, set, insert/overwrite hostile length headers, dup, cut, splice with another format, repeat, JSON type swaps; real gzip/zstd then mutations of the compressed stream; wrong content types/encodings; hostile event-time/samplerate/dataset) on every HTTP route of the incoming and the peer listener and on the gRPC trace, logs, health and unknown methods of a live Router; a quarter of the request cases are HISTORIES in which the environment lookup at the fake Honeycomb's /1/auth fails for one request (401, 500, undecodable body, hang-up) and requests with environment-style keys (same, other, cached, uncached, slow lookup) follow on the same router. " +
+			"request: 1-5 mutated requests (truncate, flip, set, insert/overwrite hostile length headers, dup, cut, splice with another format, repeat, JSON type swaps; real gzip/zstd then mutations of the compressed stream; wrong content types/encodings; hostile event-time/samplerate/dataset) on every HTTP route of the incoming and the peer listener and on the gRPC trace, logs, health and unknown methods of a live Router; a quarter of the request cases are HISTORIES in which the environment lookup at the fake Honeycomb's /1/auth fails for one request (401, 500, undecodable body, hang-up) and requests with environment-style keys (same, other, cached, uncached, slow lookup) follow on the same router; 1 in 15 request cases (plus 4 hand-kept replays) belong to the family 'accepted but internally huge' (small on the wire, > 1 MB or > 5 MB as messagepack inside refinery: compressed msgpack strings, JSON number arrays / many numeric fields, OTLP attributes) and end with a shutdown of the SUT that must return with every accepted event forwarded or reported as an error. " +
 			"The refinery side runs in a child process (crashes, os.Exit and CPU spins are observed from outside); a violation is reported only when a brand-new child reproduces it. Hand-kept regression cases of fixed defects carry a tag that is appended to their signatures so a known finding can never mask them. Non-trivial: config mode = validation accepted a file into which the generator had put at least one near-valid/junk value; request mode = at least one request was really mutated (or the process died). Distinct = distinct case JSON.",
 		Assumptions: []string{
 			"a panic or exit during validation/loading itself is outside the statement ('configuration that passes validation'): counted in coverage key validator_panics, not reported as a violation",
-			"a missing reply within the wall deadline (30 s per request, 90 s per config) is inconclusive; a hang is reported only when the server process burnt >= 6 CPU-seconds on one request (<= 6 MB) without answering: CPU time does not depend on how busy the machine is",
+			"a missing reply within the wall deadline (30 s per request, 90 s per config) is inconclusive; a hang is reported only when the server process burnt >= 6 CPU-seconds (+ 60 per MB of body on the wire: long JSON number arrays legitimately cost seconds) on one request without answering; CPU time depends little on how busy the machine is",
+			"shutdown verdicts (drain): 'never returns' needs >= 6 CPU-seconds burnt while Stop() is pending and a busy refinery goroutine in the dump; a shutdown that neither returns nor burns CPU within 120 s is inconclusive; accounting is a lower bound (OTLP logs, whose dataset husky chooses, are not counted)",
 			"a handler is reported BLOCKED (not late) only when, >= 3 s after the request, the process used < 150 ms CPU in the last 3 s (its idle baseline is 30-60 ms), the fake upstream serves nothing (refinery is not waiting on the network), /alive is answered within 2 s (the process is scheduled and idle), and two goroutine dumps 1 s apart show the same handler goroutine parked on a lock/channel at the same frame",
 			"the child runs with RLIMIT_AS = 5 GiB; an out-of-memory death is blamed on refinery only when the single allocation it asked for exceeds this machine's RAM+swap (it would fail without the cap too)",
 			"the collector is a pass-through double and samplers are driven directly (as collectorWorker.send drives them); collector start-up under fuzzed Collection/Traces values is not exercised",
